@@ -67,6 +67,9 @@ pub fn run(a: &Args) {
         add("zero.so", vec![0u8; 64], None, None, 0, "r-x", false, &mut files);
         add("libé.so.3rc5", rtext(&mut rng, 32), Some(rid(&mut rng)), None, 0, "r-x", false, &mut files);
         add("gone.so.7", rtext(&mut rng, 40), Some(rid(&mut rng)), Some("libgone.so.7"), 0, "r-x", true, &mut files);
+        // a SONAME as long as a file name can be (255 bytes), and a longer one
+        let long_so = format!("lib{}.so.7", "x".repeat(if case % 2 == 0 { 248 } else { 300 }));
+        add("liblongname.so", rtext(&mut rng, 56), Some(rid(&mut rng)), Some(&long_so), 0, "r-x", false, &mut files);
         add("archive.apk", rtext(&mut rng, 48), Some(rid(&mut rng)), Some("libemb.so"), 4096, "r-x", false, &mut files);
         // the build-id note in a SECOND PT_NOTE segment (the first holds another note), no section headers: the id can only
         // come from the program headers, also after the file has been deleted
